@@ -213,7 +213,7 @@ func Select(site int, hasDefault bool, cases ...selCase) int {
 		return nativeSelect(hasDefault, cases)
 	}
 	self := CurTask()
-	Yield(site)
+	OpYield(site)
 	for {
 		// which cases can complete now
 		var ready [16]int
@@ -371,7 +371,7 @@ func Lock[T any](site int, p *T) {
 		}
 		return
 	}
-	Yield(site)
+	OpYield(site)
 	for !tl.TryLock() {
 		Block(site)
 	}
@@ -396,7 +396,7 @@ func RLock[T any](site int, p *T) {
 		}
 		return
 	}
-	Yield(site)
+	OpYield(site)
 	for !tl.TryRLock() {
 		Block(site)
 	}
